@@ -104,7 +104,15 @@ impl ComplexTime {
         let nanos_in_one_micro = Duration::from_micros(1).as_nanos();
         let submicrosecond_nanos = match self.wall_duration_since(SystemTime::UNIX_EPOCH) {
             Ok(duration) => duration.as_nanos() % nanos_in_one_micro,
-            Err(e) => nanos_in_one_micro - e.duration().as_nanos() % nanos_in_one_micro,
+            // Before the epoch, truncating (toward the epoch, the same way the conversion to
+            // microseconds for storage does) moves the time forward.
+            Err(e) => {
+                let submicrosecond_nanos = e.duration().as_nanos() % nanos_in_one_micro;
+                return ComplexTime {
+                    wall: self.wall + Duration::from_nanos(submicrosecond_nanos as u64),
+                    mono: self.mono,
+                };
+            }
         };
         ComplexTime {
             wall: self.wall - Duration::from_nanos(submicrosecond_nanos as u64),
